@@ -28,12 +28,13 @@ const (
 	rPoint   // harness scheduling point (call begin/end, callbacks)
 	rQuiesce // harness checkpoint: served only when nothing else is enabled at this instant
 	rScribble
+	rYield
 )
 
 var kindNames = map[reqKind]string{
 	rStart: "start", rTaskEnd: "task-end", rNote: "note", rListenUDP: "listen-udp", rDial: "dial", rDialWait: "dial-wait",
 	rClose: "close", rSetDeadline: "set-deadline", rWrite: "write", rRead: "read", rSleep: "sleep", rLock: "lock",
-	rUnlock: "unlock", rRLock: "rlock", rRUnlock: "runlock", rPoint: "point", rQuiesce: "quiesce", rScribble: "scribble",
+	rUnlock: "unlock", rRLock: "rlock", rRUnlock: "runlock", rPoint: "point", rQuiesce: "quiesce", rScribble: "scribble", rYield: "yield",
 }
 
 type req struct {
@@ -354,6 +355,10 @@ func (s *Sim) complete(r *req, alt int) {
 		s.logG(r.g, Ev{Kind: "point", Note: r.tag, Data: r.buf})
 		s.reply(r, resp{})
 
+	case rYield:
+		s.Stats["yield"]++
+		s.reply(r, resp{})
+
 	case rQuiesce:
 		s.logG(r.g, Ev{Kind: "quiesce", Note: r.tag, N: s.openSockets()})
 		s.reply(r, resp{val: s.openSockets()})
@@ -647,6 +652,14 @@ func (s *Sim) doRead(r *req, alt int) {
 		s.logG(r.g, Ev{Kind: "read-fail", Sock: k.ID, Err: "i/o timeout"})
 		s.reply(r, resp{err: &kerr{op: op, kind: "timeout"}})
 		return
+	}
+	if k.Proto == "udp" && !k.Connected && len(k.q) > 0 {
+		// a transient receive error on an unconnected socket; the datagram stays queued
+		if e, ok := s.fault("udpread"); ok {
+			s.logG(r.g, Ev{Kind: "read-fail", Sock: k.ID, Err: e.Error(), Note: "injected"})
+			s.reply(r, resp{err: &kerr{op: op, errno: e}})
+			return
+		}
 	}
 	if k.pendErr != 0 && len(k.q) == 0 {
 		e := k.pendErr
